@@ -29,7 +29,7 @@ type YieldSpec struct {
 }
 
 type ExprSpec struct {
-	Kind string `json:"kind"` // tcpassert | dial | intn | prologue
+	Kind string `json:"kind"` // tcpassert | dial | intn | prologue | result
 	File string `json:"file"`
 	Func string `json:"func"`
 	Arg  string `json:"arg"`
@@ -809,6 +809,34 @@ func rewriteExpr(fc *fileCtx, e ExprSpec) {
 			Body: &ast.BlockStmt{List: []ast.Stmt{ret}},
 		}
 		fd.Body.List = append([]ast.Stmt{ifs}, fd.Body.List...)
+		count++
+	case "result":
+		// the first result of the function is shown to a hook when the function returns:
+		//   defer func() { if h, ok := verifhook.Hooks["<arg>"]; ok { h.(func(interface{}))(verifR0) } }()
+		ft := fd.Type
+		if ft.Results == nil || len(ft.Results.List) == 0 {
+			die("%s: %s has no results", fc.rel, e.Func)
+		}
+		first := ""
+		k := 0
+		for _, f := range ft.Results.List {
+			if len(f.Names) == 0 {
+				f.Names = []*ast.Ident{ast.NewIdent(fmt.Sprintf("verifR%d", k))}
+			}
+			if first == "" {
+				first = f.Names[0].Name
+			}
+			k += len(f.Names)
+		}
+		callH := &ast.CallExpr{Fun: &ast.TypeAssertExpr{X: ast.NewIdent("verifH"), Type: &ast.FuncType{Params: &ast.FieldList{List: []*ast.Field{{Type: &ast.InterfaceType{Methods: &ast.FieldList{}}}}}}}, Args: []ast.Expr{ast.NewIdent(first)}}
+		ifs := &ast.IfStmt{
+			Init: &ast.AssignStmt{Lhs: []ast.Expr{ast.NewIdent("verifH"), ast.NewIdent("verifHok")}, Tok: token.DEFINE,
+				Rhs: []ast.Expr{&ast.IndexExpr{X: &ast.SelectorExpr{X: ast.NewIdent("verifhook"), Sel: ast.NewIdent("Hooks")}, Index: strLit(e.Arg)}}},
+			Cond: ast.NewIdent("verifHok"),
+			Body: &ast.BlockStmt{List: []ast.Stmt{&ast.ExprStmt{X: callH}}},
+		}
+		def := &ast.DeferStmt{Call: &ast.CallExpr{Fun: &ast.FuncLit{Type: &ast.FuncType{Params: &ast.FieldList{}}, Body: &ast.BlockStmt{List: []ast.Stmt{ifs}}}}}
+		fd.Body.List = append([]ast.Stmt{def}, fd.Body.List...)
 		count++
 	default:
 		die("unknown expr kind %s", e.Kind)
